@@ -57,6 +57,19 @@ def run(prog, R):
         R.ob("C04.1-spec-first-admitted", kn, ok, "", f"specification expression-start token {kn} is in EXPR_FIRST or is a classical type")
         okh = kn in G.kdisc and bool(H & (1 << G.kdisc[kn]))
         R.ob("C04.1-spec-first-parsed", kn, okh, "", f"`lhs` has a successful outcome when the first token is {kn}")
+    # list items: index lists, case values and array literals parse their items as expressions behind a guard of
+    # their own; every specification expression-start token must get through it
+    R.floor("list item probes", len(G.list_probe), 250)
+    for fn in sorted({k[0] for k in G.list_probe}):
+        for kn in spec:
+            if kn == "MEASURE_KW":
+                continue        # measureExpression is not an `expression` of the reference grammar: only a declaration / assignment right-hand side
+            outs = G.list_probe.get((fn, kn))
+            ok = outs is not None and any(c and not e for c, e in outs)
+            R.ob("C04.1-list-item-first", f"{fn.split('::')[-1]}:{kn}", ok, prog.body(fn).at,
+                 f"outcomes (consumed, diagnostic) of {fn.split('::')[-1]} when an item starts with {kn}: {outs}; a valid expression item needs a consuming, diagnostic-free outcome")
+    import C01
+    C01.composite_jointness(prog, R, "C04.5-composite-operators")
     # ---- C04.2 statement dispatch coverage
     starts = json.load(open(os.path.join(VERIF, "spec", "statements.json")))["starts"]
     for kn in starts:
